@@ -2,7 +2,10 @@
 C10 for Quadratic.  Statements about the generated functions (`Gen.R.Quadratic_*` = modelling/quadratic.py now).
 The declared bounds allow any real `Ka`, `Kb`; the property (monotone, invertible, bounded by the saturation
 `2 n_m`) only makes sense for positive constants, so every theorem takes `n_m, Ka, Kb > 0` explicitly.
-Validity range: `p ≥ 0` (no pole for positive constants).
+Validity range: `p ≥ 0` (no pole for positive constants).  Since the repair of finding S51-C10a/b the inverse is computed in the
+cancellation-free form of the same root (`Lemmas/Quad.lean` `stable_minus_eq`), which also covers `Kb = 0` (the model is Langmuir's
+then, the quadratic degenerates; the earlier form divided by zero and returned the pressure 0 for every loading):
+`quadratic_pressure_loading_kb_zero`.
 -/
 import PgVerif.Tie.Models
 import PgVerif.Lemmas.Quad
@@ -49,7 +52,7 @@ theorem quadratic_pressure_loading (nm Ka Kb p : ℝ) (hnm : 0 < nm) (hKa : 0 < 
     rw [div_mul_cancel₀ _ h1.ne']
   unfold Quadratic_pressure nanToZero
   simp only []
-  apply PgVerif.Quad.root_minus' ((n - 2 * nm) * Kb) _ n p (n / ((n - 2 * nm) * Kb * p)) hx
+  apply PgVerif.Quad.stable_minus' ((n - 2 * nm) * Kb) _ n p (n / ((n - 2 * nm) * Kb * p)) hx
   · have e : -((n - 2 * nm) * Kb) * (p + n / ((n - 2 * nm) * Kb * p))
         = (-((n - 2 * nm) * Kb) * p ^ 2 - n) / p := by
       field_simp
@@ -68,23 +71,40 @@ theorem quadratic_pressure_loading (nm Ka Kb p : ℝ) (hnm : 0 < nm) (hKa : 0 < 
 theorem quadratic_zero (nm Ka Kb : ℝ) : Quadratic_loading nm Ka Kb 0 = 0 := by
   rw [PgVerif.Tie.quadratic_loading]; simp [quadratic]
 
-/-- the zero point of the inverse.  Unlike BET/GAB the quadratic formula does NOT degenerate at loading 0:
-the denominator `2 x = -4 n_m Kb` is non-zero, the numerator `-y - √(y²)` vanishes, so the code returns a
-genuine `0 / nonzero = 0` (no NaN, no reliance on `x / 0 = 0`). -/
-theorem quadratic_pressure_zero_point (nm Ka Kb : ℝ) (hnm : 0 < nm) (hKa : 0 < Ka) (hKb : 0 < Kb) :
+/-- the degenerate member of the family: with `Kb = 0` the model is Langmuir's (`n = n_m Ka p / (1 + Ka p)`), the leading coefficient
+of the quadratic vanishes and the branch form returns the root of the linear equation that is left (finding S51-C10b before the repair:
+the pressure 0 for every loading) -/
+theorem quadratic_pressure_loading_kb_zero (nm Ka p : ℝ) (hnm : 0 < nm) (hKa : 0 < Ka) (hp : 0 < p) :
+    Quadratic_pressure nm Ka 0 (Quadratic_loading nm Ka 0 p) = p := by
+  rw [PgVerif.Tie.quadratic_loading]
+  set n := quadratic nm Ka 0 p with hndef
+  have h1 : 0 < 1 + Ka * p + 0 * p ^ 2 := by positivity
+  have hrel : n * (1 + Ka * p + 0 * p ^ 2) = nm * (Ka + 2 * 0 * p) * p := by
+    rw [hndef]; unfold quadratic
+    rw [div_mul_cancel₀ _ h1.ne']
+  have hlt : n < nm := by
+    have : 0 < nm * 1 := by positivity
+    nlinarith [hrel]
+  have hx0 : (n - 2 * nm) * 0 = 0 := by ring
+  have hy : (n - nm) * Ka < 0 := mul_neg_of_neg_of_pos (by linarith) hKa
+  unfold Quadratic_pressure nanToZero
+  simp only []
+  rw [PgVerif.Quad.stable_minus_linear _ _ _ hx0 hy, div_eq_iff (ne_of_lt hy)]
+  linear_combination (-1) * hrel
+
+/-- the zero point of the inverse: at loading 0 the branch `y = -n_m Ka < 0` is taken and the quotient is a genuine
+`(2 · 0) / (2 n_m Ka)` with a non-zero denominator (no NaN, no reliance on `x / 0 = 0`). -/
+theorem quadratic_pressure_zero_point (nm Ka Kb : ℝ) (hnm : 0 < nm) (hKa : 0 < Ka) :
     let x := ((0 : ℝ) - 2 * nm) * Kb
     let y := ((0 : ℝ) - nm) * Ka
-    (-y - Real.sqrt (y ^ 2 - 4 * x * 0) = 0) ∧ 2 * x ≠ 0 ∧ Quadratic_pressure nm Ka Kb 0 = 0 := by
+    y < 0 ∧ Real.sqrt (y ^ 2 - 4 * x * 0) - y ≠ 0 ∧ Quadratic_pressure nm Ka Kb 0 = 0 := by
   simp only []
-  have hnum : -((0 - nm) * Ka) - Real.sqrt (((0 - nm) * Ka) ^ 2 - 4 * ((0 - 2 * nm) * Kb) * 0) = 0 := by
-    have : ((0 - nm) * Ka) ^ 2 - 4 * ((0 - 2 * nm) * Kb) * 0 = (nm * Ka) ^ 2 := by ring
-    rw [this, Real.sqrt_sq (by positivity)]; ring
-  refine ⟨hnum, ?_, ?_⟩
-  · have : 0 < nm * Kb := by positivity
-    intro h; nlinarith
-  · unfold Quadratic_pressure nanToZero
-    simp only []
-    rw [hnum, zero_div]
+  have hy : ((0 : ℝ) - nm) * Ka < 0 := mul_neg_of_neg_of_pos (by linarith) hKa
+  have hs := Real.sqrt_nonneg ((((0 : ℝ) - nm) * Ka) ^ 2 - 4 * ((0 - 2 * nm) * Kb) * 0)
+  refine ⟨hy, by linarith, ?_⟩
+  unfold Quadratic_pressure nanToZero
+  simp only []
+  rw [if_pos hy, mul_zero, zero_div]
 
 /-- pressure(loading(p)) = p on the whole validity range, zero point included -/
 theorem quadratic_pressure_loading_nonneg (nm Ka Kb p : ℝ) (hnm : 0 < nm) (hKa : 0 < Ka) (hKb : 0 < Kb)
@@ -92,7 +112,7 @@ theorem quadratic_pressure_loading_nonneg (nm Ka Kb p : ℝ) (hnm : 0 < nm) (hKa
     Quadratic_pressure nm Ka Kb (Quadratic_loading nm Ka Kb p) = p := by
   rcases hp.eq_or_lt with h0 | hpos
   · rw [← h0, quadratic_zero]
-    exact (quadratic_pressure_zero_point nm Ka Kb hnm hKa hKb).2.2
+    exact (quadratic_pressure_zero_point nm Ka Kb hnm hKa).2.2
   · exact quadratic_pressure_loading nm Ka Kb p hnm hKa hKb hpos
 
 theorem quadratic_strictMonoOn (nm Ka Kb : ℝ) (hnm : 0 < nm) (hKa : 0 < Ka) (hKb : 0 < Kb) :
